@@ -413,6 +413,7 @@ ObsT ==
         staleNames |-> Cardinality(byName \ Live(K)),
         staleBlks  |-> Cardinality(byBlk \ Live(K)),
         count  |-> Count(K),
+        pool   |-> 0,                                                            \* assemblies these operations sent to the spent fuel pool
         volOk  |-> ~\E cc \in Occ(K) : Line(cc) = 3 /\ at[cc].k = 0,
         shared |-> 0,                                                            \* objects shared between two assemblies
         namesUnique |-> \A c1, c2 \in Occ(K) : c1 # c2 => at[c1].num # at[c2].num,
